@@ -240,9 +240,6 @@ func (c *Canon) of(v ssa.Value) string {
 	case *ssa.MakeClosure:
 		return "closure(" + c.Of(x.Fn) + ")"
 	case *ssa.Alloc:
-		if x.Comment != "" {
-			return "var:" + x.Comment
-		}
 		return "new(" + types.TypeString(x.Type().(*types.Pointer).Elem(), shortQual) + ")"
 	case *ssa.Range:
 		return "range(" + c.Of(x.X) + ")"
@@ -262,14 +259,23 @@ func shortQual(p *types.Package) string { return p.Name() }
 
 func (c *Canon) fieldOf(base ssa.Value, idx int) string {
 	t := base.Type()
+	baseStr := ""
+	switch b := base.(type) {
+	case *ssa.FieldAddr:
+		baseStr = c.fieldOf(b.X, b.Field) // nested struct: a.b.c, not &a.b.c
+	case *ssa.IndexAddr:
+		baseStr = "elem(" + c.Of(b.X) + ")"
+	default:
+		baseStr = c.Of(base)
+	}
 	if p, ok := t.Underlying().(*types.Pointer); ok {
 		t = p.Elem()
 	}
 	st, ok := t.Underlying().(*types.Struct)
 	if !ok {
-		return c.Of(base) + ".?"
+		return baseStr + ".?"
 	}
-	return c.Of(base) + "." + st.Field(idx).Name()
+	return baseStr + "." + st.Field(idx).Name()
 }
 
 // constName maps a constant of a named (enum-like) type back to the name of the declared
